@@ -16,15 +16,28 @@ ASSUMPTIONS = ["on a non-ok status the destination content is unspecified; statu
 
 def scripts(rng, tier, n=None):
     out = []
-    n = n or (14 if tier == "quick" else 200)
+    n = n or (21 if tier == "quick" else 210)
     for k in range(n):
         ssrc = rng.randrange(2, 1 << 32)
         p = rand_policy(rng, ssrc=ssrc, valid=True)
         aead = p.rtp[0] in (GCM128, GCM256)
-        if k % 7 == 3 and not aead:
+        # stratified: every run visits each class of policy whose buffer handling has a code path of its own (a purely random
+        # draw of 14 policies left some of them out for some seeds, and two seeded changes went unnoticed)
+        klass = k % 7
+        ext_p = 0.5
+        if klass == 1:
+            p.rtp = p.rtp[:5] + (0,); p.rtcp = p.rtcp[:5] + (rng.choice([0, 2]),)      # no service at all: pure copies
+        elif klass == 2:
+            p.rtp = p.rtp[:5] + (2,); p.rtcp = p.rtcp[:5] + (2,)                        # authentication only
+        elif klass == 3 and not aead:
             # tag length configured but authentication service not requested
             p.rtp = p.rtp[:3] + (20, 10, rng.choice([1, 0]))
-        if k % 5 == 4:
+        elif klass == 4:
+            p.cryptex, p.enc_xtn, ext_p = True, b"", 0.9                                  # cryptex alone, packets with extensions
+        elif klass == 5:
+            p.cryptex, ext_p = False, 0.9                                                 # RFC 6904 alone
+            p.enc_xtn = p.enc_xtn or bytes(rng.sample(range(1, 15), 2))
+        if k % 5 == 4 and klass not in (1, 2, 4, 5):
             # the library accepts policies that ask for cryptex and RFC 6904 encryption together
             p.cryptex = True
             p.enc_xtn = p.enc_xtn or bytes(rng.sample(range(1, 15), 2))
@@ -34,7 +47,7 @@ def scripts(rng, tier, n=None):
         seq = rng.choice([1, 65530])
         for i in range(6 if tier == "quick" else 20):
             rtcp = rng.random() < 0.35
-            pkt = rand_rtcp(rng, ssrc) if rtcp else rand_rtp(rng, ssrc, seq & 0xffff, ids=list(p.enc_xtn) or None)
+            pkt = rand_rtcp(rng, ssrc) if rtcp else rand_rtp(rng, ssrc, seq & 0xffff, ids=list(p.enc_xtn) or None, ext_p=ext_p)
             seq += rng.choice([1, 1, 0, 2])
             if rng.random() < 0.15:
                 pkt = pkt[:rng.randrange(0, len(pkt) + 1)]        # malformed
@@ -125,4 +138,4 @@ def families(tier, seed):
     corpus = [("corpus-cryptex-6904", corpus_cryptex_6904())]
     rng2 = random.Random(seed * 1000 + 112)
     return [Family("four-modes", corpus + scripts(rng, tier), monitor=monitor),
-            Family("gcm-four-modes", with_aead(scripts, rng2, tier, n=(12 if tier == "quick" else 120)), monitor=monitor, config="openssl")]
+            Family("gcm-four-modes", with_aead(scripts, rng2, tier, n=(14 if tier == "quick" else 126)), monitor=monitor, config="openssl")]
